@@ -684,6 +684,20 @@ def _site(stmt, names):
         return stmt.value, "annassign"
     if isinstance(stmt, ast.Return) and stmt.value is not None and _call_of(stmt.value, names):
         return stmt.value, "return"
+    if isinstance(stmt, ast.AugAssign):
+        # `h(a).field += v`: the base of the target is what Python evaluates first
+        e = stmt.target
+        while isinstance(e, (ast.Attribute, ast.Subscript)):
+            e = e.value
+        if _call_of(e, names) and e is not stmt.target:
+            return e, "hoist"
+    if isinstance(stmt, ast.Expr) and isinstance(stmt.value, ast.Call):
+        # `h(a).method(...)`: the receiver is evaluated first
+        e = stmt.value.func
+        while isinstance(e, (ast.Attribute, ast.Subscript)):
+            e = e.value
+        if _call_of(e, names) and e is not stmt.value:
+            return e, "hoist"
     if isinstance(stmt, ast.If):
         t = stmt.test
         if _call_of(t, names):
@@ -795,6 +809,13 @@ def inline_helpers(container, candidates, counter, is_module=False):
                     stmts.append(_loc(ast.If(test=res, body=st.body, orelse=st.orelse), st))
                 elif kind == "ifnot":
                     stmts.append(_loc(ast.If(test=ast.UnaryOp(op=ast.Not(), operand=res), body=st.body, orelse=st.orelse), st))
+                elif kind == "hoist":
+                    class _Sub(ast.NodeTransformer):
+                        def visit_Call(self, n, _c=call, _r=res):
+                            if n is _c:
+                                return ast.copy_location(_r, n)
+                            return self.generic_visit(n)
+                    stmts.append(_Sub().visit(st))
                 # nonlocal declarations needed in the receiving function
                 need_nl = set()
                 if between:
@@ -1735,6 +1756,59 @@ def inline_module_helpers(tree, counter, modname, known, everything=False):
     return total
 
 
+# ---------------------------------------------------------------------------------------------- private methods
+def inline_private_methods(trees, known, counter):
+    """A private method that is new relative to the reference tree, is defined by no other class and is only ever called
+    as `self._m(...)` from methods of its own class is inlined into those callers (level 2)."""
+    defined_in = {}
+    for t in trees.values():
+        for c in [x for x in ast.walk(t) if isinstance(x, ast.ClassDef)]:
+            for st in c.body:
+                if isinstance(st, _FUNC_NODES):
+                    defined_in.setdefault(st.name, []).append(c)
+    done = 0
+    for mname, tree in trees.items():
+        for cls in [x for x in tree.body if isinstance(x, ast.ClassDef)]:
+            known_m = known.get(f"{mname}::{cls.name}")
+            for meth in [st for st in list(cls.body) if isinstance(st, ast.FunctionDef)]:
+                nm = meth.name
+                if not nm.startswith("_") or (nm.startswith("__") and nm.endswith("__")) or meth.decorator_list:
+                    continue
+                if known_m is not None and nm in known_m:
+                    continue
+                if len(defined_in.get(nm, [])) != 1:
+                    continue
+                ps = meth.args.posonlyargs + meth.args.args
+                if not ps or not inlinable_def(meth):
+                    continue
+                # every `.nm` in the module is `<self>.nm(...)` inside a method of this class
+                attrs = [n for n in ast.walk(tree) if isinstance(n, ast.Attribute) and n.attr == nm]
+                if any(isinstance(n, ast.Name) and n.id == nm for n in ast.walk(tree)):
+                    continue
+                sites = []
+                ok = bool(attrs)
+                for other in [st for st in cls.body if isinstance(st, ast.FunctionDef) and st is not meth]:
+                    ops = other.args.posonlyargs + other.args.args
+                    oself = ops[0].arg if ops else None
+                    for c in [n for n in ast.walk(other) if isinstance(n, ast.Call) and isinstance(n.func, ast.Attribute) and n.func.attr == nm]:
+                        if isinstance(c.func.value, ast.Name) and c.func.value.id == oself:
+                            sites.append(c)
+                if not ok or len(sites) != len(attrs) or {id(c.func) for c in sites} != {id(a) for a in attrs}:
+                    continue
+                backup = copy.deepcopy(cls)
+                tmp = f"{cls.name}_{nm}".replace("__", "_")
+                for c in sites:
+                    recv = c.func.value
+                    c.func = ast.copy_location(ast.Name(id=tmp, ctx=ast.Load()), c.func)
+                    c.args = [recv] + list(c.args)
+                meth.name = tmp
+                if inline_helpers(cls, [meth], counter) == 1:
+                    done += 1
+                else:
+                    cls.body[:] = backup.body
+    return done
+
+
 # ---------------------------------------------------------------------------------------------- cross-module helpers
 import builtins as _builtins
 
@@ -1853,8 +1927,11 @@ def canonicalise(trees, level, known_funcs=None):
         return log
     if level >= 2:
         n_x = inline_cross_module_helpers(trees, known_funcs or {}, itertools.count(1000))
-        if n_x:
-            log.append({"module": "*", "cross_module_helpers_inlined": n_x})
+        n_pm = inline_private_methods(trees, known_funcs or {}, itertools.count(2000))
+        if n_x or n_pm:
+            for t_ in trees.values():
+                ast.fix_missing_locations(t_)
+            log.append({"module": "*", "cross_module_helpers_inlined": n_x, "private_methods_inlined": n_pm})
     for name, tree in trees.items():
         counter = itertools.count()
         mt = MatchToIf()
